@@ -491,7 +491,7 @@ ostep!(o_inv1, Cfg { kind: 4, h: 1, d: 4, depth: [0, 0, 0, 1, 0, 0], ..CFG0 });
 ostep!(o_dup2, Cfg { kind: 5, h: 2, d: 5, depth: [0, 0, 0, 1, 0, 0], ..CFG0 });
 // @h prop=C02 unwind=10 rec=3 cutfmt=1 uw=same_output.0:25;exit_model.0:25;exit.0:25;push.0:17;write.0:17 timeout=1200 mem=12 tier=thorough what=항_then_!
 ostep!(o_e, Cfg { kind: 1, h: 1, d: 4, area: 4, depth: [0, 0, 0, 2, 0, 0], ..CFG0 });
-// @h prop=C02 unwind=10 rec=2 cutfmt=1 uw=same_output.0:25;exit_model.0:25;exit.0:25;push.0:17;write.0:17 timeout=1200 mem=12 tier=thorough what=heart_with_a_symbolic_label_entry(jump_forward_out_of_the_prefix_or_registration)
+// @h prop=C02 unwind=10 rec=2 cutfmt=1 uw=same_output.0:25;exit_model.0:25;exit.0:25;push.0:17;write.0:17 timeout=1200 mem=12 tier=thorough kind=stretch what=heart_with_a_symbolic_label_entry(jump_forward_out_of_the_prefix_or_registration)
 ostep!(o_heart_tab, Cfg { kind: 0, h: 1, d: 2, area: 1, npts: 1, depth: [0, 0, 0, 1, 0, 0], ..CFG0 });
 // @h prop=C02 unwind=10 rec=2 cutfmt=1 uw=same_output.0:25;exit_model.0:25;exit.0:25;push.0:17;write.0:17 timeout=1200 mem=12 tier=thorough what=항_with_stack_4_selected
 ostep!(o_add2_c4, Cfg { kind: 1, h: 2, d: 5, cur: 4, depth: [0, 0, 0, 1, 2, 1], ..CFG0 });
